@@ -1324,7 +1324,7 @@ pub fn mutate(
             }
         }
         let bytes: Option<(Bytes, String)> = match tag.kind {
-            _ if spec.op == 2000 => overflow_attack(data, &mut rng),
+            _ if spec.op == 2000 => overflow_attack(data, sim.world.params.pow, &mut rng),
             _ if spec.op == 2001 => cbmt_attack(data, &mut rng),
             _ if spec.op == 2004 => same_height_twin(sim, data, &mut rng),
             Kind::SendLastStateProof => packed::LightClientMessageReader::from_compatible_slice(data)
@@ -1941,8 +1941,50 @@ fn overflowing_root(v: &packed::VerifiableHeader, rng: &mut Rng) -> packed::Veri
 
 /// Honest answers whose peer-supplied totals / numbers sit at the arithmetic boundary (the
 /// header, uncles hash and extension - what the client compares first - stay as they are).
-fn overflow_attack(data: &Bytes, rng: &mut Rng) -> Option<(Bytes, String)> {
+/// A self-consistent made-up tip: the header of `v` with an extension (and extra hash) that
+/// commits to a chain root whose total difficulty is 2^256-1 (or a little below).
+fn overflowing_tip(v: &packed::VerifiableHeader, pow: crate::chain::PowKind, rng: &mut Rng) -> packed::VerifiableHeader {
+    let td = if rng.chance(2, 3) { u256_max() } else { &u256_max() - rng.below(3) as u32 };
+    let root = v.parent_chain_root().as_builder().total_difficulty(td.pack()).build();
+    let ext: packed::Bytes = Bytes::from(root.calc_mmr_hash().as_slice().to_vec()).pack();
+    let raw = v.header().raw();
+    let header = raw_header(
+        raw.number().unpack(),
+        raw.epoch().unpack(),
+        raw.compact_target().unpack(),
+        Unpack::<u64>::unpack(&raw.timestamp()) + 1,
+        raw.parent_hash(),
+        &ext,
+    );
+    let header = crate::chain::mine_header(pow, header);
+    packed::VerifiableHeader::new_builder()
+        .header(header)
+        .uncles_hash(Byte32::zero())
+        .extension(packed::BytesOpt::new_builder().set(Some(ext)).build())
+        .parent_chain_root(root)
+        .build()
+}
+
+fn overflow_attack(data: &Bytes, pow: crate::chain::PowKind, rng: &mut Rng) -> Option<(Bytes, String)> {
     let m = packed::LightClientMessageReader::from_compatible_slice(data).ok()?;
+    // blocks / transactions proofs, one time in four: "my tip has changed" - nothing but a new
+    // last header, self-consistent, whose chain root carries the boundary total difficulty
+    if rng.chance(1, 4) {
+        let tip = match m.to_enum() {
+            packed::LightClientMessageUnionReader::SendBlocksProof(r) => Some((true, r.last_header().to_entity())),
+            packed::LightClientMessageUnionReader::SendTransactionsProof(r) => Some((false, r.last_header().to_entity())),
+            _ => None,
+        };
+        if let Some((blocks, last)) = tip {
+            let fake = overflowing_tip(&last, pow, rng);
+            let out = if blocks {
+                lc_msg(packed::SendBlocksProof::new_builder().last_header(fake).build())
+            } else {
+                lc_msg(packed::SendTransactionsProof::new_builder().last_header(fake).build())
+            };
+            return Some((out.as_bytes(), "tip changed: a self-consistent new last header with an overflowing chain root".to_string()));
+        }
+    }
     let root_variant = rng.chance(1, 3);
     let note = if root_variant { "overflowing chain root of the last header" } else { "sibling digests tuned to overflow at the first merge" };
     let out = match m.to_enum() {
